@@ -85,10 +85,20 @@ class TrigGen(genprog.Gen):
         a, b = self.pure_bool(), self.pure_bool()
         if "<" in a or "=" in a:
             a = "(%s)" % a if r.random() < 0.5 else a
-        shape = r.randrange(8)
+        shape = r.randrange(12)
         self.note("repeated_bool shape %d" % shape)
         pa = a if a.startswith("(") else "(%s)" % a
         pb = "(%s)" % b
+        other = "&&" if op == "||" else "||"
+        # chains that MIX && and ||: the same operand on both sides of an operator change is not a repetition
+        if shape == 8:
+            return "%s %s %s %s %s" % (pa, op, pb, other, pa)
+        if shape == 9:
+            return "(%s %s %s) %s %s" % (pa, op, pb, other, pa)
+        if shape == 10:
+            return "%s %s (%s %s %s)" % (pa, op, pb, other, pa)
+        if shape == 11:
+            return "%s %s %s %s %s %s %s" % (pa, op, pb, other, pa, op, pb)
         if shape == 0:
             return "%s %s %s" % (pa, op, pa)
         if shape == 1:
